@@ -4,7 +4,8 @@
             use crate::common::traits::Serialize;
             use crate::decode::AppDecodeLevel;
             use crate::error::RequestError;
-            use crate::types::{AddressRange, BitIterator, ReadBitsRange};
+            use crate::types::{AddressRange, BitIterator, ReadBitsRange, Indexed};
+            use crate::shims::tokio;
             use crate::shims::scursor::{ReadCursor, WriteCursor};
 
             // what a completed read-bits request delivers: the requested range and one value per address, in order
@@ -23,11 +24,18 @@
                     requires iter.wf(), iter.pos == 0,
                     ensures final(self).outcome() == (if old(self).outcome() is None { Some(Ok::<BitsValue, RequestError>(BitsValue { range: iter.range, values: iter.spec_values() })) } else { old(self).outcome() }),
                 { unimplemented!() }
+                // a fresh promise is pending
+                #[verifier::external_body]
+                pub fn oneshot(tx: crate::shims::tokio::sync::oneshot::Sender<Result<Vec<crate::types::Indexed<bool>>, RequestError>>) -> (r: Self) ensures r.outcome() is None { unimplemented!() }
             }
 //@trusted client::requests::read_bits::Promise::{success,failure}: complete the callback / oneshot at most once (first completion wins) - not cross-checked: Kani cannot handle Box<dyn FnOnce> + oneshot within 20 min
 //@item rodbus/src/client/requests/read_bits.rs | ReadBits
             impl ReadBits {
                 pub open spec fn wf(&self) -> bool { self.request.inner.wf() && self.request.inner.count <= 2000 }
+//@fn rodbus/src/client/requests/read_bits.rs | ReadBits::new | tags=C03
+//@|    ensures r.request == request, r.promise == promise,
+//@fn rodbus/src/client/requests/read_bits.rs | ReadBits::channel | tags=C03,C10
+//@|    ensures r.request == request, r.promise.outcome() is None,
 //@fn rodbus/src/client/requests/read_bits.rs | ReadBits::serialize | tags=C03
 //@|    requires old(cursor).wf(),
 //@|    ensures final(cursor).wf(), final(cursor).cap() == old(cursor).cap(), final(cursor).pos >= old(cursor).pos,
@@ -62,7 +70,8 @@
             use crate::common::traits::Serialize;
             use crate::decode::AppDecodeLevel;
             use crate::error::RequestError;
-            use crate::types::{AddressRange, RegisterIterator, ReadRegistersRange};
+            use crate::types::{AddressRange, RegisterIterator, ReadRegistersRange, Indexed};
+            use crate::shims::tokio;
             use crate::shims::scursor::{ReadCursor, WriteCursor};
 
             // what a completed read-registers request delivers
@@ -81,11 +90,18 @@
                     requires iter.wf(), iter.pos == 0,
                     ensures final(self).outcome() == (if old(self).outcome() is None { Some(Ok::<RegsValue, RequestError>(RegsValue { range: iter.range, values: iter.spec_values() })) } else { old(self).outcome() }),
                 { unimplemented!() }
+                // a fresh promise is pending
+                #[verifier::external_body]
+                pub fn oneshot(tx: crate::shims::tokio::sync::oneshot::Sender<Result<Vec<crate::types::Indexed<u16>>, RequestError>>) -> (r: Self) ensures r.outcome() is None { unimplemented!() }
             }
 //@trusted client::requests::read_registers::Promise::{success,failure}: complete the callback / oneshot at most once (first completion wins) - not cross-checked: Kani cannot handle Box<dyn FnOnce> + oneshot within 20 min
 //@item rodbus/src/client/requests/read_registers.rs | ReadRegisters
             impl ReadRegisters {
                 pub open spec fn wf(&self) -> bool { self.request.inner.wf() && self.request.inner.count <= 125 }
+//@fn rodbus/src/client/requests/read_registers.rs | ReadRegisters::new | tags=C03
+//@|    ensures r.request == request, r.promise == promise,
+//@fn rodbus/src/client/requests/read_registers.rs | ReadRegisters::channel | tags=C03,C10
+//@|    ensures r.request == request, r.promise.outcome() is None,
 //@fn rodbus/src/client/requests/read_registers.rs | ReadRegisters::serialize | tags=C03
 //@|    requires old(cursor).wf(),
 //@|    ensures final(cursor).wf(), final(cursor).cap() == old(cursor).cap(), final(cursor).pos >= old(cursor).pos,
@@ -161,6 +177,8 @@
             }
 
             impl<T> SingleWrite<T> where T: SingleWriteOperation + Display + Send + 'static {
+//@fn rodbus/src/client/requests/write_single.rs | SingleWrite<T>::new | tags=C03
+//@|    ensures r.request == request, r.promise == promise,
 //@fn rodbus/src/client/requests/write_single.rs | SingleWrite<T>::serialize | tags=C03
 //@|    requires old(cursor).wf(),
 //@|    ensures final(cursor).wf(), final(cursor).cap() == old(cursor).cap(), final(cursor).pos >= old(cursor).pos,
